@@ -100,8 +100,10 @@ impl Shared {
         let t0 = std::time::Instant::now();
         while self.word(1).load(Ordering::SeqCst) < n {
             std::thread::yield_now();
-            if t0.elapsed().as_secs() > 60 {
-                panic!("start barrier timed out");
+            if t0.elapsed().as_secs() > 600 {
+                // a harness problem (overloaded machine, a peer that never started), not a verdict
+                eprintln!("drv-service: start barrier timed out");
+                std::process::exit(2);
             }
         }
     }
@@ -190,4 +192,10 @@ pub fn cleanup_domain(config: &Config) {
         let _ = std::fs::remove_file(format!("/dev/shm/{n}"));
     }
     let _ = std::fs::remove_dir_all(config.global.root_path().to_string());
+}
+
+/// Token that keeps concurrently running driver processes (and check runs) apart: the tag given by
+/// the check plus this process' id.  Used in every domain prefix, root sub-directory and file name.
+pub fn run_token(args: &vlib::Args) -> String {
+    format!("{}{:x}", args.get_or("tag", ""), std::process::id())
 }
